@@ -202,6 +202,9 @@ impl LocalSpan {
         name: impl Into<Cow<'static, str>>,
         stack: Rc<RefCell<LocalSpanStack>>,
     ) -> Self {
+        // Convert the name before borrowing the stack: the conversion is user code and may use
+        // the tracing API itself.
+        let name: Cow<'static, str> = name.into();
         let span_handle = {
             let mut stack = stack.borrow_mut();
             stack.enter_span(name)
